@@ -143,8 +143,14 @@ pub fn interface_name(rng: &mut Rng) -> String {
 }
 
 pub fn comment_text(rng: &mut Rng) -> String {
-    const WORDS: &[&str] = &["the", "value", "of", "x", "(a: int)", "type", "method", "error", "->", "#", "interface", "a,b", "?", "[]", "ünï", ":", "TODO", "-", "\"q\"", "1.2"];
-    let n = rng.below(5);
+    const WORDS: &[&str] = &["the", "value", "of", "x", "(a: int)", "type", "method", "error", "->", "#", "interface", "a,b", "?", "[]", "ünï", ":", "TODO", "-", "\"q\"", "1.2",
+        "(", ")", "((", "(1", "2)", "[", "]", "[string", "{", "}", ":-)", ";", "\\", "'", "type T (", "method M(", "error E (", "interface x.y", "-> (", "(a:", "##", "\u{1F600}"];
+    // now and then a long legend / ASCII-art style line: dozens of brackets that are never closed
+    let n = if rng.chance(1, 12) { rng.range(20, 90) } else { rng.below(5) };
+    if n >= 20 && rng.chance(1, 2) {
+        let w = *rng.pick(&["(", "((", "(1", "[", "method M(", "{", ")", "-> ("]);
+        return (0..n).map(|_| w).collect::<Vec<_>>().join(" ");
+    }
     (0..n).map(|_| *rng.pick(WORDS)).collect::<Vec<_>>().join(" ")
 }
 
@@ -152,7 +158,8 @@ fn comments(rng: &mut Rng, on: bool) -> Vec<String> {
     if !on || !rng.chance(1, 3) {
         return vec![];
     }
-    (0..rng.range(1, 2)).map(|_| comment_text(rng)).collect()
+    let k = if rng.chance(1, 10) { rng.range(3, 8) } else { rng.range(1, 2) };
+    (0..k).map(|_| comment_text(rng)).collect()
 }
 
 fn unique(rng: &mut Rng, used: &mut Vec<String>, f: fn(&mut Rng) -> String) -> String {
